@@ -62,7 +62,8 @@ CONFIRM_SCALE = 20
 CONFIRM_MIN_SECONDS = 90.0
 INFRA_SECONDS = 300.0
 REFUSALS = ["multi-field", "no-sub-resolver", "unknown-field", "query-op", "mutation-op", "blocking-runtime", "threadpool-runtime",
-            "multi-expanded", "zero-fields", "opsel-unknown", "opsel-ambiguous", "vars", "shorthand-op", "named-query-op", "query-op-missing-var"]
+            "multi-expanded", "zero-fields", "opsel-unknown", "opsel-ambiguous", "vars", "shorthand-op", "named-query-op", "query-op-missing-var",
+            "null-arg-var", "null-include-var", "null-skip-var"]
 EXPECTED_EXC = {
     "multi-field": "ExecutionError",
     "no-sub-resolver": "RuntimeError",
@@ -79,6 +80,11 @@ EXPECTED_EXC = {
     "shorthand-op": "RuntimeError",           # `{ … }` is a query
     "named-query-op": "RuntimeError",         # a query picked by operation_name next to a subscription
     "query-op-missing-var": "RuntimeError",   # the operation kind is refused BEFORE its variables are looked at (documented: RuntimeError)
+    # a defaulted nullable variable sent as null where a non-null value is needed: the document validates, the variables are accepted,
+    # but no source can be created -> refused with the class subscribe uses to refuse a request, not a raw CoercionError / ResolverError
+    "null-arg-var": "ExecutionError",         # subscription ($n: Int = 2) { root: evr(n: $n) {…} }   with {"n": null}, evr(n: Int! = 1)
+    "null-include-var": "ExecutionError",     # subscription ($u: Boolean = true) { root: ev(n: 5) @include(if: $u) {…} }   with {"u": null}
+    "null-skip-var": "ExecutionError",        # … @skip(if: $u) …
 }
 LEAF = ("a", "ad", "bad", "badd")
 OBJ = ("o", "od")
@@ -365,8 +371,16 @@ def render_root(case):
     arg = "$v" if case["refusal"] in ("vars", "query-op-missing-var") else ("$n" if case.get("vars") else "5")
     half = max(1, len(sel) // 2)
     extra = (" " + VAR_SEL_TEXT) if case.get("vars") else ""
+    r0 = case["refusal"]
+    rfield, rdir = "ev(n: %s)" % arg, ""
+    if r0 == "null-arg-var":
+        rfield = "evr(n: $nn)"
+    elif r0 == "null-include-var":
+        rdir = " @include(if: $nu)"
+    elif r0 == "null-skip-var":
+        rdir = " @skip(if: $nu)"
     leaf_text = {
-        "R": "root: ev(n: %s) { %s%s }" % (arg, render_sel(sel), extra),
+        "R": "root: %s%s { %s%s }" % (rfield, rdir, render_sel(sel), extra),
         "Ra": "root: ev(n: %s) { %s }" % (arg, render_sel(sel[:half])),
         "Rb": "root: ev(n: %s) { %s }" % (arg, render_sel(sel[half:]) or "zz: a"),
         "Rs": "root: ev(n: %s) @skip(if: true) { %s }" % (arg, render_sel(sel)),
@@ -407,6 +421,10 @@ def documents(case):
     elif r == "mutation-op":
         kw = "mutation    "
     decl = "($v: Int!)" if r in ("vars", "query-op-missing-var") else ""
+    if r == "null-arg-var":
+        decl = "($nn: Int = 2)"
+    elif r in ("null-include-var", "null-skip-var"):
+        decl = "($nu: Boolean = %s)" % ("true" if r == "null-include-var" else "false")
     if case.get("vars"):
         decl = "(%s)" % ", ".join("$%s: %s%s" % (name, t, "" if lit is None else " = " + lit) for name, (t, lit, _d, _c) in VARS.items())
     tail = (" " + frags) if frags else ""
@@ -424,6 +442,10 @@ def request_extras(case):
     """(operation_name, variables) of the subscribe call"""
     r = case["refusal"]
     opname = {"opsel-unknown": "Missing", "named-query-op": "Q"}.get(r)
+    if r == "null-arg-var":
+        return opname, {"nn": None}
+    if r in ("null-include-var", "null-skip-var"):
+        return opname, {"nu": None}
     if case.get("vars"):
         return opname, copy.deepcopy(case["vars"]["send"])
     return opname, ({} if r in ("vars", "query-op-missing-var") else None)
@@ -527,7 +549,7 @@ def schemas(mode):
     if mode in _SCHEMAS:
         return _SCHEMAS[mode]
     from py_gql.exc import ResolverError
-    from py_gql.schema import Argument, Field, Int, ListType, ObjectType, Schema
+    from py_gql.schema import Argument, Field, Int, ListType, NonNullType, ObjectType, Schema
 
     def outcome(root, info):
         tick(info)
@@ -672,6 +694,7 @@ def schemas(mode):
         S = ObjectType("Subscription", [
             Field("ev", Evt, args=[Argument("n", Int)], resolver=root_resolver, subscription_resolver=sub),
             Field("ev2", Evt, resolver=root_resolver, subscription_resolver=sub),
+            Field("evr", Evt, args=[Argument("n", NonNullType(Int), default_value=1)], resolver=root_resolver, subscription_resolver=sub),
             Field("nosub", Evt, resolver=root_resolver),
         ])
         return [Dog, Cat], S
@@ -1072,6 +1095,8 @@ def model_request(case):
         "streamRuntime": r not in ("blocking-runtime", "threadpool-runtime"),
         "opsel": "error" if r in ("opsel-unknown", "opsel-ambiguous") else "ok",
         "vars": "error" if r in ("vars", "query-op-missing-var") else "ok",
+        "rootCollect": "error" if r in ("null-include-var", "null-skip-var") else "ok",
+        "args": "error" if r == "null-arg-var" else "ok",
         "events": [event_tree(case, ev, k) for k, ev in enumerate(case["events"])],
     }
 
